@@ -100,6 +100,11 @@ func newResultGroupJob[T, R any](bufferSize int) *resultGroupJob[T, R] {
 		wgc: helpers.NewWgCounter(bufferSize),
 	}
 
+	// nothing will ever finish in an empty batch, so its stream is complete from the start
+	if bufferSize == 0 {
+		gj.Response.Close()
+	}
+
 	return gj
 }
 
@@ -139,9 +144,8 @@ func (gj *resultGroupJob[T, R]) Close() error {
 		return err
 	}
 
-	gj.wgc.Done()
-
-	if gj.wgc.Count() == 0 {
+	// only the job that releases the last pending item closes the shared stream
+	if gj.wgc.Release() {
 		gj.Response.Close()
 	}
 
@@ -167,7 +171,7 @@ type EnqueuedErrGroupJob interface {
 }
 
 func newErrorGroupJob[T any](bufferSize int) *errorGroupJob[T] {
-	return &errorGroupJob[T]{
+	gj := &errorGroupJob[T]{
 		errorJob: errorJob[T]{
 			job: job[T]{
 				wg: sync.WaitGroup{},
@@ -176,6 +180,13 @@ func newErrorGroupJob[T any](bufferSize int) *errorGroupJob[T] {
 		},
 		wgc: helpers.NewWgCounter(bufferSize),
 	}
+
+	// nothing will ever finish in an empty batch, so its stream is complete from the start
+	if bufferSize == 0 {
+		gj.Response.Close()
+	}
+
+	return gj
 }
 
 func (gj *errorGroupJob[T]) NumPending() int {
@@ -214,9 +225,8 @@ func (gj *errorGroupJob[T]) Close() error {
 		return err
 	}
 
-	gj.wgc.Done()
-
-	if gj.wgc.Count() == 0 {
+	// only the job that releases the last pending item closes the shared stream
+	if gj.wgc.Release() {
 		gj.Response.Close()
 	}
 
